@@ -429,6 +429,7 @@ def plan(tier, seed):
             specs.append({"family": "histories", "config": kind, "firsts": NAMES[s:s + chunk], "triples": ("some" if q else "all"),
                           "long": 40 if q else 1500, "generated": 30 if q else 800, "seed": seed, "n": 1})
     specs.append({"family": "markdown", "seed": seed, "n": 1})
+    specs.append({"family": "w0", "seed": seed, "n": 1})
     small = ["a5", "b5", "c5", "d5", "e5"]
     pairs = [("a5", "b5"), ("c5", "e5"), ("d5", "b5"), ("a5", "c5"), ("e5", "d5")]
     if not q:
@@ -465,6 +466,9 @@ def run_shard(spec, M):
         run_histories(spec, M)
     elif f == "markdown":
         run_markdown(M)
+    elif f == "w0":
+        from .base import run_repo_tests_under_monitors
+        run_repo_tests_under_monitors(M, {"G13"})
     elif f == "schedules":
         run_schedules(spec, M)
     elif f == "free":
